@@ -18,7 +18,8 @@ EXTENDS Integers, Sequences, FiniteSets, TLC
 PrefixClasses == {"ok", "upper", "mixed", "empty", "toolong", "badchar", "other"}
 AddrClasses   == {"ok", "wrongprefix", "badchecksum", "notbech32", "upper", "empty"}
 OptAddrClasses == AddrClasses \cup {"none"}
-ListClasses   == {"ok", "empty", "dup", "onewrongprefix", "onebadchecksum", "dupcase"}
+\* ("dupfar" / "dupcasefar": the repetition is NOT next to its first occurrence)
+ListClasses   == {"ok", "empty", "dup", "onewrongprefix", "onebadchecksum", "dupcase", "dupfar", "dupcasefar"}
 DenomClasses  == {"ok", "short", "nonalpha"}
 IbcDenomClasses == {"ok", "noprefix", "len63", "len65", "multibyte64"}
 ChannelClasses == {"ok", "noprefix", "nonnumeric", "empty", "bare", "signed", "negative", "spaced"}
